@@ -5,6 +5,7 @@ import (
 	"context"
 	"errors"
 	"fmt"
+	"github.com/hashicorp/nodeenrollment/util/temperror"
 	"sync"
 
 	"github.com/hashicorp/nodeenrollment"
@@ -51,6 +52,9 @@ const (
 	// FaultDuplicate: what a storage that refuses to overwrite answers (types.DuplicateRecordError, in
 	// pointer form); outside FaultKinds because only the fault-position engine sweeps it
 	FaultDuplicate = "duplicate"
+	// FaultTemporary: an error that calls itself temporary (Temporary() reports true), the way network-backed
+	// stores report a hiccup; outside FaultKinds like FaultDuplicate
+	FaultTemporary = "temporary"
 )
 
 var FaultKinds = []string{FaultGeneric, FaultNotFound, FaultCancelled}
@@ -66,6 +70,8 @@ func faultErr(kind string) error {
 		return context.Canceled
 	case FaultDuplicate:
 		return fmt.Errorf("injected: %w", new(types.DuplicateRecordError))
+	case FaultTemporary:
+		return temperror.New(errors.New("injected: storage temporarily unavailable"))
 	}
 	return ErrInjected
 }
